@@ -33,7 +33,7 @@ m = {
 }
 for p in props:
     pid = p["id"]
-    if pid in checks:
+    if pid in checks and not checks[pid].get('disabled'):
         c = checks[pid]
         m["checks"].append({
             "property_id": pid,
@@ -47,6 +47,6 @@ for p in props:
             "technique": c.get("technique", "Lean 4 theorems about an executable model + differential correspondence check against the Rust code"),
         })
     else:
-        m["not_applicable"].append({"property_id": pid, "reason": unclaimed.get(pid, "check not built yet (work in progress; see DESIGN.md §11 staging) — not a claim that the technique cannot apply")})
+        m["not_applicable"].append({"property_id": pid, "reason": (checks.get(pid, {}).get("disabled") or unclaimed.get(pid, "check not built yet (work in progress; see DESIGN.md §11 staging) — not a claim that the technique cannot apply"))})
 json.dump(m, open(os.path.join(ROOT, "MANIFEST.json"), "w"), indent=1)
 print("MANIFEST.json:", len(m["checks"]), "claimed,", len(m["not_applicable"]), "not claimed")
